@@ -37,9 +37,8 @@ impl<'p> IonSeries<'p> {
         const C: f32 = 12.0;
         const O: f32 = 15.994914;
         const H: f32 = 1.007825;
-        const PRO: f32 = 1.0072764;
         const N: f32 = 14.003074;
-        const NH3: f32 = N + H * 2.0 + PRO;
+        const NH3: f32 = N + H * 3.0;
 
         let cumulative_mass = match kind {
             Kind::A => peptide.nterm.unwrap_or_default() - (C + O),
